@@ -108,6 +108,13 @@ def sim_case(draw, schedulers, tier="quick", max_pipes=12, single_seg=False, for
     a = draw(st.integers(0, 10))
     b = draw(st.integers(0, 10 - a))
     params["interactive_prob"], params["query_prob"], params["batch_prob"] = a / 10, b / 10, (10 - a - b) / 10
+    if not force.get("tps") and draw(st.integers(0, 7)) == 0:
+        # durations that are whole seconds (or k/tps exactly) at tick rates that do not divide a power of ten: the number
+        # of ticks a run has is int(duration * tps)
+        tps = draw(st.sampled_from([93, 117, 75, 150, 24, 99, 7]))
+        params["ticks_per_second"] = tps
+        params["duration"] = draw(st.sampled_from([1, 2, 3, 1.0, 7 / tps * 3, 0.3 * 10 / tps * 1.0]))
+        nticks = int(params["duration"] * tps)
     params.update(force.get("params", {}))
     solo = sched == "priority-pool" and not multi and draw(st.booleans())
     npipes = draw(st.sampled_from([3, 5, 2, 8] + list(range(1, max_pipes + 1)) * 2 + [0]))
